@@ -49,6 +49,9 @@ META["rule"] += (
 META["rule"] += (
     " " + 'Added after the third round: the accessors `visibility(i, j)` (all pairs of short series, neighbouring pairs otherwise) and `visibility_single(i)` against the reference graph.')
 
+META["rule"] += (
+    " " + 'Added after the fifth round: records of 515 and 1027 (thorough 2051) samples, both graph types, against an exact O(n^2) integer reference; the horizontal / missing_values switches as bool / np.bool_ / int / np.int64.')
+
 def _eq(a, b):
     a = np.asarray(a, dtype=float)
     b = np.asarray(b, dtype=float)
